@@ -214,6 +214,8 @@ class Engine(object):
             return k(st, st.ghost[nm])       # ghost code may read loop-index ghosts
         if nm == 'is_python_3':
             return k(st, mk_bool(True))
+        if self.is_exc_class(nm):
+            return k(st, SV(EXC, None, None, nm))        # an exception class used as a value
         if nm in self.TYPE_TAGS or nm in self.repo.classes:
             return k(st, SV(Ty('meta'), self.type_tag_of_name(self, nm)))      # a type used as a value: type(x) == T
         mc = self.repo.module_consts.get((self.cur_module(st), nm))
@@ -271,7 +273,10 @@ class Engine(object):
                     ety = vs[0].ty
                     if ety.kind == 'none':
                         ety = ANY
-            k(s, s.new_list(ety, vs))
+            lst = s.new_list(ety, vs)
+            if not vs and ety == ANY:
+                lst.meta = {'empty_literal': True}       # element type still open: fixed by the first typed use (field store)
+            k(s, lst)
         return self.ev_seq(n.elts, st, got)
 
     def hint_type(self, node, what):
@@ -720,6 +725,8 @@ class Engine(object):
             spec = self.spec_for_call(fi)
             if over and spec is None and not (o.meta and o.meta.get('exact')):
                 raise Unsupported('dynamic dispatch of %s.%s without a contract (overridden in %s)' % (cname, mname, over))
+            if fi.is_static:
+                return self.call_repo(fi, pos, kws, st, k, n)
             return self.call_repo(fi, [o] + pos, kws, st, k, n)
         if key in self.method_externs:
             self.externs_used.add('%s.%s' % key)
@@ -882,7 +889,11 @@ class Engine(object):
         for (rn, rexpr) in spec.requires:
             f = self.speceval.formula(rexpr, ctx0)
             st.assume(*ctx0.side)
-            self.oblige('call/%s/requires/%s' % (spec.name.split('.')[-1], rn), st, f, line)
+            o_ = self.oblige('call/%s/requires/%s' % (spec.name.split('.')[-1], rn), st, f, line)
+            snap_ = st.fork()
+            snap_.env = dict(st.env)
+            o_.ctx = SpecCtx(snap_, old=self.entry_state, entry=self.entry_state)     # for the developer probe tool (caller's names)
+            o_.engine = self
         caller_env = st.env
 
         def post_state(s):
@@ -1049,7 +1060,14 @@ class Engine(object):
             def got(s, o):
                 if o.ty.kind != 'ref':
                     raise Unsupported('attribute store on ' + str(o.ty))
-                s.set_field(o, tgt.attr, v)
+                v2 = v
+                if v.ty.kind == 'list' and v.meta and v.meta.get('empty_literal'):
+                    decl, fty = self.ctab.field_decl(o.ty.args[0], tgt.attr)
+                    if fty is not None and fty.kind == 'list' and fty != v.ty:
+                        v2 = SV(fty, v.t)                # `[]` stored into a field of declared list type
+                        s.list_set_elems(v2, s.list_elems(v2), z3.IntVal(0))
+                        s.set_tag(v2)
+                s.set_field(o, tgt.attr, v2)
                 k(s)
             return self.ev(tgt.value, st, got)
         if isinstance(tgt, ast.Subscript):
